@@ -2,14 +2,14 @@ import LalModel.Model.Go
 import LalModel.Proof.Go
 /-
   `Ok Q x`: the Go function modelled by `x` returns normally (no panic, no error) with a result satisfying `Q`;
-  `NoPanic x`: it does not reach a run-time failure (it may return an error). Composition lemmas for the
+  `NoPanicB x`: it does not reach a run-time failure (it may return an error). Composition lemmas for the
   `do`-blocks of the C05 models.
 -/
 namespace Lal
 
 def Ok {α} (Q : α → Prop) (x : GoM α) : Prop := ∃ a, x = .ok a ∧ Q a
 
-def NoPanic {α} (x : GoM α) : Prop := isPanic x = false
+def NoPanicB {α} (x : GoM α) : Prop := isPanic x = false
 
 theorem Ok.ok {α} {Q : α → Prop} {a : α} (h : Q a) : Ok Q (Except.ok a : GoM α) := ⟨a, rfl, h⟩
 theorem Ok.pure {α} {Q : α → Prop} {a : α} (h : Q a) : Ok Q (Pure.pure a : GoM α) := ⟨a, rfl, h⟩
@@ -39,68 +39,68 @@ theorem Ok.idx? (s : String) (b : Bytes) (i : Nat) (h : i < b.length) : Ok (fun 
 theorem Ok.from? (s : String) (b : Bytes) (i : Nat) (h : i ≤ b.length) : Ok (fun r => r = b.drop i) (from? s b i) := by
   simp [Ok, Lal.from?, h]
 
-theorem Ok.noPanic {α} {Q : α → Prop} {x : GoM α} (h : Ok Q x) : NoPanic x := by
+theorem Ok.noPanic {α} {Q : α → Prop} {x : GoM α} (h : Ok Q x) : NoPanicB x := by
   obtain ⟨a, rfl, _⟩ := h; rfl
 
-theorem NoPanic.ok {α} (a : α) : NoPanic (Except.ok a : GoM α) := rfl
-theorem NoPanic.pure {α} (a : α) : NoPanic (Pure.pure a : GoM α) := rfl
-theorem NoPanic.err {α} : NoPanic (Except.error .err : GoM α) := rfl
-theorem NoPanic.throwErr {α} : NoPanic (throw Fault.err : GoM α) := rfl
+theorem NoPanicB.ok {α} (a : α) : NoPanicB (Except.ok a : GoM α) := rfl
+theorem NoPanicB.pure {α} (a : α) : NoPanicB (Pure.pure a : GoM α) := rfl
+theorem NoPanicB.err {α} : NoPanicB (Except.error .err : GoM α) := rfl
+theorem NoPanicB.throwErr {α} : NoPanicB (throw Fault.err : GoM α) := rfl
 
-theorem NoPanic.bind {α β} {x : GoM α} {f : α → GoM β} (hx : NoPanic x) (hf : ∀ a, x = .ok a → NoPanic (f a)) :
-    NoPanic (x >>= f) := by
+theorem NoPanicB.bind {α β} {x : GoM α} {f : α → GoM β} (hx : NoPanicB x) (hf : ∀ a, x = .ok a → NoPanicB (f a)) :
+    NoPanicB (x >>= f) := by
   cases x with
   | ok a => exact hf a rfl
   | error e =>
     cases e with
     | err => rfl
-    | panic s => simp [NoPanic, isPanic] at hx
+    | panic s => simp [NoPanicB, isPanic] at hx
 
-theorem NoPanic.ite {α} {c : Prop} [Decidable c] {x y : GoM α} (hx : c → NoPanic x) (hy : ¬ c → NoPanic y) :
-    NoPanic (if c then x else y) := by
+theorem NoPanicB.ite {α} {c : Prop} [Decidable c] {x y : GoM α} (hx : c → NoPanicB x) (hy : ¬ c → NoPanicB y) :
+    NoPanicB (if c then x else y) := by
   split
   · exact hx ‹_›
   · exact hy ‹_›
 
-theorem NoPanic.idx? (s : String) (b : Bytes) (i : Nat) (h : i < b.length) : NoPanic (idx? s b i) := (Ok.idx? s b i h).noPanic
-theorem NoPanic.from? (s : String) (b : Bytes) (i : Nat) (h : i ≤ b.length) : NoPanic (from? s b i) := (Ok.from? s b i h).noPanic
+theorem NoPanicB.idx? (s : String) (b : Bytes) (i : Nat) (h : i < b.length) : NoPanicB (idx? s b i) := (Ok.idx? s b i h).noPanic
+theorem NoPanicB.from? (s : String) (b : Bytes) (i : Nat) (h : i ≤ b.length) : NoPanicB (from? s b i) := (Ok.from? s b i h).noPanic
 
-theorem NoPanic.slice? (s : String) (b : Bytes) (i j : Nat) (h : i ≤ j ∧ j ≤ b.length) : NoPanic (slice? s b i j) := by
-  simp [NoPanic, Lal.slice?, h, isPanic]
+theorem NoPanicB.slice? (s : String) (b : Bytes) (i j : Nat) (h : i ≤ j ∧ j ≤ b.length) : NoPanicB (slice? s b i j) := by
+  simp [NoPanicB, Lal.slice?, h, isPanic]
 
-/-- a result that is neither `ok` nor `err` contradicts `NoPanic` -/
-theorem NoPanic.elim {α} {x : GoM α} (h : NoPanic x) {e : Fault} (he : x = .error e) : e = .err := by
+/-- a result that is neither `ok` nor `err` contradicts `NoPanicB` -/
+theorem NoPanicB.elim {α} {x : GoM α} (h : NoPanicB x) {e : Fault} (he : x = .error e) : e = .err := by
   cases e with
   | err => rfl
-  | panic s => rw [he] at h; simp [NoPanic, isPanic] at h
+  | panic s => rw [he] at h; simp [NoPanicB, isPanic] at h
 
 
-theorem NoPanic.absurd {α} {x : GoM α} {s : String} (h : NoPanic x) (he : x = .error (.panic s)) : False := by
-  rw [he] at h; simp [NoPanic, isPanic] at h
+theorem NoPanicB.absurd {α} {x : GoM α} {s : String} (h : NoPanicB x) (he : x = .error (.panic s)) : False := by
+  rw [he] at h; simp [NoPanicB, isPanic] at h
 
-theorem NoPanic.throw_of {α β} {x : GoM α} {e : Fault} (h : NoPanic x) (he : x = .error e) : NoPanic (throw e : GoM β) := by
+theorem NoPanicB.throw_of {α β} {x : GoM α} {e : Fault} (h : NoPanicB x) (he : x = .error e) : NoPanicB (throw e : GoM β) := by
   cases e with
   | err => rfl
   | panic s => exact (h.absurd he).elim
 
-theorem NoPanic.absurd' {α} {x : GoM α} {s : String} (he : x = .error (.panic s)) (h : NoPanic x) : False := h.absurd he
-theorem NoPanic.throw_of' {α β} {x : GoM α} {e : Fault} (he : x = .error e) (h : NoPanic x) : NoPanic (throw e : GoM β) := h.throw_of he
-theorem NoPanic.error_of' {α β} {x : GoM α} {e : Fault} (he : x = .error e) (h : NoPanic x) : NoPanic (Except.error e : GoM β) := h.throw_of he
+theorem NoPanicB.absurd' {α} {x : GoM α} {s : String} (he : x = .error (.panic s)) (h : NoPanicB x) : False := h.absurd he
+theorem NoPanicB.throw_of' {α β} {x : GoM α} {e : Fault} (he : x = .error e) (h : NoPanicB x) : NoPanicB (throw e : GoM β) := h.throw_of he
+theorem NoPanicB.error_of' {α β} {x : GoM α} {e : Fault} (he : x = .error e) (h : NoPanicB x) : NoPanicB (Except.error e : GoM β) := h.throw_of he
 
 /-- normalise a `do`-block: join points are inlined, `throw e >>= k` collapses -/
 macro "np_norm" : tactic =>
   `(tactic| simp only [GoM.throw_bind, GoM.ok_bind, GoM.pure_eq, GoM.throw_eq, GoM.error_bind, bind_pure_comp, Functor.map, Except.map])
 
-/-- structural `NoPanic` prover: `if`, `>>=`, guarded `idx?` / `from?` / `slice?` (side conditions by `omega`) -/
+/-- structural `NoPanicB` prover: `if`, `>>=`, guarded `idx?` / `from?` / `slice?` (side conditions by `omega`) -/
 macro "np" : tactic => `(tactic| repeat' (first
-  | exact NoPanic.ok _ | exact NoPanic.err | exact NoPanic.pure _
+  | exact NoPanicB.ok _ | exact NoPanicB.err | exact NoPanicB.pure _
   | assumption
-  | (exfalso; exact NoPanic.absurd' (by assumption) (by assumption))
-  | (exact NoPanic.throw_of' (by assumption) (by assumption))
-  | (exact NoPanic.error_of' (by assumption) (by assumption))
-  | (apply NoPanic.idx?; omega) | (apply NoPanic.from?; omega) | (apply NoPanic.slice?; omega)
-  | (apply NoPanic.ite <;> intro _)
-  | (refine NoPanic.bind ?_ (fun _ _ => ?_))
+  | (exfalso; exact NoPanicB.absurd' (by assumption) (by assumption))
+  | (exact NoPanicB.throw_of' (by assumption) (by assumption))
+  | (exact NoPanicB.error_of' (by assumption) (by assumption))
+  | (apply NoPanicB.idx?; omega) | (apply NoPanicB.from?; omega) | (apply NoPanicB.slice?; omega)
+  | (apply NoPanicB.ite <;> intro _)
+  | (refine NoPanicB.bind ?_ (fun _ _ => ?_))
   | split))
 /-- returns normally (neither a run-time failure nor an error) -/
 def Total {α} (x : GoM α) : Prop := ∃ a, x = .ok a
